@@ -303,7 +303,7 @@ var errDial = errors.New("dial failed")
 
 func (sr *syncRig) connect(p, b int) error {
 	d := net.Dialer{LocalAddr: &net.TCPAddr{IP: net.IPv4(127, 0, 0, byte(10+p))}, Timeout: 3 * time.Second}
-	c, err := d.Dial("tcp", "127.0.0.1:"+sr.params.DefaultPort)
+	c, err := chainh.PatientDial(&d, "tcp", "127.0.0.1:"+sr.params.DefaultPort)
 	if err != nil {
 		// the machine could not give this node a connection (no free port, listen queue full): not an observation
 		delete(sr.nodes, p)
